@@ -152,7 +152,7 @@ func (p *parser) isQuant() bool {
 		return false
 	}
 	n := p.t[p.i+2]
-	return n.k == "id" || (n.k == "op" && (n.s == "::" || n.s == ","))
+	return n.k == "id" || (n.k == "op" && (n.s == "::" || n.s == "," || n.s == "*"))
 }
 
 func (p *parser) top() (*Expr, error) {
@@ -165,7 +165,10 @@ func (p *parser) top() (*Expr, error) {
 			}
 			n := p.next().s
 			sort := "Int"
-			if p.peek().k == "id" {
+			if p.isOp("*") && p.t[p.i+1].k == "id" {
+				p.i++
+				sort = "*" + p.next().s
+			} else if p.peek().k == "id" {
 				sort = p.next().s
 			}
 			vars = append(vars, BVar{n, sort})
